@@ -4,6 +4,7 @@ import (
 	"fmt"
 	"go/types"
 	"sort"
+	"strings"
 
 	"golang.org/x/tools/go/ssa"
 )
@@ -67,6 +68,7 @@ func (x *Exec) heapGet(st *State, key string, s Sort) *Term {
 	t := x.D.declareConst("H."+sanitize(key)+"@0", s)
 	x.initHeap[key] = t
 	x.heapSort[key] = s
+	x.nilMapFact(key, t)
 	return t
 }
 
@@ -453,4 +455,17 @@ func (x *Exec) mergeStates(hint string, edges []inEdge) (*State, error) {
 		}
 	}
 	return out, nil
+}
+
+
+// nilMapFact: in every version of a map-domain heap the nil map (reference 0) has an empty domain.
+func (x *Exec) nilMapFact(key string, h *Term) {
+	if !strings.HasPrefix(key, "M|") || !strings.HasSuffix(key, "|dom") {
+		return
+	}
+	_, inner, ok := arrParts(h.S)
+	if !ok {
+		return
+	}
+	x.asserts = append(x.asserts, tEq(tSelect(h, intLit(0)), constArr(inner, tFalse)))
 }
